@@ -407,7 +407,7 @@ func (x *fsExec) check() (viol []sched.Violation, summary string, nontrivial boo
 				for _, s := range byStream[ref.Stream] {
 					if s.Pack <= ref.Pack && s.Kind != "dropColl" && !acked[s.Key] && !gone(s) {
 						if s.Kind == "insPart" {
-							add("C06/checkpoint-past-failed/unknown-partition", "checkpoint %s = %q (pack %d) written at event %d although message %s (pack %d), which could not be processed, lies before it", fk, id, ref.Pack, e.N, s.ID, s.Pack)
+							add(rootSig(s, "C06/checkpoint-past-failed/unknown-partition"), "checkpoint %s = %q (pack %d) written at event %d although message %s (pack %d), which could not be processed, lies before it", fk, id, ref.Pack, e.N, s.ID, s.Pack)
 							break
 						}
 						add(rootSig(s, "C05/checkpoint-ahead-of-ack"), "checkpoint %s = %q (pack %d) written at event %d while message %s (pack %d) of that stream has not been acknowledged", fk, id, ref.Pack, e.N, s.ID, s.Pack)
@@ -538,7 +538,15 @@ func (x *fsExec) check() (viol []sched.Violation, summary string, nontrivial boo
 					continue
 				}
 				for _, m := range x.src {
-					if m.Coll == c.ID && m.Kind == "insPart" && s.Published[m.Stream] > m.Pack {
+					// (read by the registration that is current at this point: a resume that subscribed behind the message -
+					// from a checkpoint, or at "latest" for want of one, which is the recorded finding - does not meet it again)
+					firstOfCurrent := 0
+					for _, e := range x.events[:s.At] {
+						if e.Kind == "register" && e.Key == m.Stream {
+							firstOfCurrent = e.First
+						}
+					}
+					if m.Coll == c.ID && m.Kind == "insPart" && s.Published[m.Stream] > m.Pack && firstOfCurrent <= m.Pack {
 						if _, ok := owners[x.taskOfColl(c.ID)]; !ok {
 							owners[x.taskOfColl(c.ID)] = "unknown-partition"
 						}
@@ -875,6 +883,26 @@ func fsC06Scenarios(thorough bool) []*fsScenario {
 		sc.Colls[0].UnknownPart = true
 		sc.Colls[0].Shards[0].Script = fsTail([]fsPack{fpIns(1000), fpInsPart(1010), fpDel(1020)}, 1)
 		out = append(out, sc)
+		if len(l.tasks) > 1 {
+			// one task's failure (reported more than once: the write path pauses from the sender and from the batch loop, a
+			// two-shard collection reports once per shard) followed by the OTHER task's own failure: that one must be
+			// turned into a pause of its owner as well - the machinery shared by the tasks of a target (event loop,
+			// replication entity, its reference count) survives the first failure as long as a task still uses it
+			sc = mk("reject-then-other-fails")
+			sc.DownFault = true
+			sc.Colls[1].UnknownPart = true
+			sc.Colls[1].Shards[0].Script = fsTail([]fsPack{fpIns(1001), fpIns(1011), fpInsPart(1021)}, 1)
+			out = append(out, sc)
+			sc = mk("two-shard-failure-then-other-fails")
+			c1 := fsMkColl(101, "c1", "src-dml_0", "src-dml_2")
+			c1.UnknownPart = true
+			c1.Shards[0].Script = fsTail([]fsPack{fpIns(1000), fpInsPart(1010)}, 1)
+			c1.Shards[1].Script = fsTail([]fsPack{fpInsPart(1005)}, 1)
+			sc.Colls[0] = c1
+			sc.Colls[1].UnknownPart = true
+			sc.Colls[1].Shards[0].Script = fsTail([]fsPack{fpIns(1001), fpIns(1011), fpInsPart(1021)}, 1)
+			out = append(out, sc)
+		}
 	}
 	return out
 }
